@@ -134,6 +134,8 @@ def oracle(job, o):
             t['asleep'] = False
             continue
         if w[0] == 'T0':
+            if len(w) > 3 and w[1] == 'p' and int(w[3]) != 0:
+                fail('notify|final-probe-woke-nobody-but-returned-%s' % w[3], 'after all threads had returned, notify(%s, 0xFFFFFFFF) returned %s: no waiter exists any more' % (w[2], w[3]))
             continue
         name, t, ev = w[0], th[w[0]], w[1]
         if ev == 's':
@@ -220,6 +222,8 @@ def oracle(job, o):
                 fail('deadlock|notified-waiter-never-returns', '%s was counted by a notify but never returned (thread state %s)' % (name, letter))
             else:
                 fail('deadlock|waiter-stuck', '%s never returned: model state %s, thread state %s, timeout %d' % (name, t['state'], letter, t['timeout']))
+    if 'dangling' in mp:
+        fail('map|freed-memory-still-linked', 'at the terminal state the futex map links freed memory: %s (the next wait/notify on that bucket or address reads it)' % mp)
     if held:
         fail('terminal|mutex-still-held', 'at the terminal state %s' % held)
     still = {}
